@@ -6,6 +6,7 @@ core (`Rooc/Pre/Expand.lean`: the aggregation folds of `into_exp`, `range`, `enu
 independent reference unroller (see `tools/props/C06.json`: planned as a theorem).
 -/
 import Rooc.Pre.Expand
+import Rooc.Pre.Graph
 import Rooc.Sem
 import Rooc.Proofs.Field
 import Rooc.Proofs.Pre
@@ -217,6 +218,40 @@ example :
   · simp [expand, iterate, envs, It.shapeOk, declareAll, Env.get, Src.rows, CE.eval, rangeVals, intsFrom, mapE, bindRow, idxFrag, aggregate]
 
 end fragment
+
+/-! ### graph iterables and set functions (`Rooc/Pre/Graph.lean`) -/
+section graphs
+variable {α : Type}
+
+/-- `edges(G)` contains exactly the edges of the nodes of `G` … -/
+theorem edges_spec (g : Graph α) (e : GEdge α) : e ∈ g.edges ↔ ∃ n ∈ g.nodes, e ∈ Graph.neighEdges n := by
+  simp [Graph.edges, Graph.nodes, Graph.neighEdges, List.mem_flatMap]
+/-- … in node order: iterating `edges(G)` is iterating `neigh_edges(n)` for `n in nodes(G)` -/
+theorem edges_eq_neigh_of_nodes (g : Graph α) : g.edges = g.nodes.flatMap Graph.neighEdges := rfl
+theorem edges_length (g : Graph α) : g.edges.length = (g.nodes.map (fun n => (Graph.neighEdges n).length)).sum := by
+  simp [Graph.edges, Graph.nodes, Graph.neighEdges, List.length_flatMap]
+
+/-- `neigh_edges_of(name, G)` is the edge list of the FIRST node called `name`, and fails exactly when
+no node has that name -/
+theorem neighEdgesOf_spec (name : String) (g : Graph α) (es : List (GEdge α)) (h : Graph.neighEdgesOf name g = some es) :
+    ∃ n ∈ g, n.name = name ∧ es = n.edges := by
+  simp only [Graph.neighEdgesOf, Option.map_eq_some_iff] at h
+  obtain ⟨n, hn, rfl⟩ := h
+  exact ⟨n, List.mem_of_find?_eq_some hn, by simpa using List.find?_some hn, rfl⟩
+theorem neighEdgesOf_none_iff (name : String) (g : Graph α) : Graph.neighEdgesOf name g = none ↔ ∀ n ∈ g, n.name ≠ name := by
+  simp [Graph.neighEdgesOf, List.find?_eq_none]
+
+/-- an edge without weight destructures with weight 1 -/
+theorem spread_default_weight [Arith α] (a b : String) : (GEdge.spread (⟨a, b, none⟩ : GEdge α)).2.2 = Arith.ofInt 1 := rfl
+
+/-- `intersection` and `difference` select elements of their first argument, keeping its order -/
+theorem svalInter_sublist [Arith α] (a b : List (SVal α)) : (svalInter a b).Sublist a := List.filter_sublist
+theorem svalDiff_sublist [Arith α] (a b : List (SVal α)) : (svalDiff a b).Sublist a := List.filter_sublist
+/-- every element is in exactly one of them -/
+theorem svalInter_diff_partition [Arith α] (a b : List (SVal α)) (x : SVal α) (hx : x ∈ a) :
+    (x ∈ svalInter a b ∧ x ∉ svalDiff a b) ∨ (x ∉ svalInter a b ∧ x ∈ svalDiff a b) := by
+  cases h : svalContains b x <;> simp [svalInter, svalDiff, hx, h]
+end graphs
 
 /-! ### names: `flatten_variable_name` -/
 
